@@ -542,7 +542,7 @@ fn canon_model_f(f: &Sexp) -> String {
 pub fn run(cfg: &Cfg) -> Report {
   let mut rep = Report::new(
     "C02",
-    "operand classes (exact ties at the 34th digit, 34+ orders of magnitude apart, cancellation, zeros of both signs and all exponents, subnormals, overflow/underflow edges, small exact, 1..34-digit coefficients) x every operator (add sub mul div remainder modulo neg abs reduce floor ceiling trunc fract sqrt even odd is_integer decimal compare) at three layers (dec.rs wrappers, FeelNumber, FEEL text); threads: the settled add / sub / mul / div cases (every second one a tie or near-tie at the 34th digit) computed by 8 threads at once while half of them interleave floor / ceiling / trunc / fract / decimal / even / odd, every answer equal to the sequential one, and once more alone afterwards. Non-trivial: the result is not one of the operands unchanged; distinct by request line.",
+    "operand classes (exact ties at the 34th digit, 34+ orders of magnitude apart, cancellation, zeros of both signs and all exponents, subnormals, overflow/underflow edges, small exact, 1..34-digit coefficients) x every operator (add sub mul div remainder modulo neg abs reduce floor ceiling trunc fract sqrt even odd is_integer decimal compare) at three layers (dec.rs wrappers, FeelNumber, FEEL text); threads: the settled add / sub / mul / div cases (every second one a tie or near-tie at the 34th digit) computed by 8 threads at once while half of them interleave floor / ceiling / trunc / fract / decimal / even / odd, every answer equal to the sequential one, and once more alone afterwards; cohort: every operation on every representation of one value (cohort members held, written, made by decimal() and by negation; the value computed as a sum, difference, product, quotient), answers equal across the cohort and judged by enclosure / SqrtSpec / exact power / written-out truth values and texts / the model of the glue. Non-trivial: the result is not one of the operands unchanged; distinct by request line.",
   );
   // debugging aid: VERIF_PROBE="expr;expr" prints what the implementation answers
   if let Ok(p) = std::env::var("VERIF_PROBE") {
@@ -1129,6 +1129,9 @@ pub fn run(cfg: &Cfg) -> Report {
 
   // ---------------------------------------------------------------- the guards around the number library
   feel_glue_family(&mut rep, &mut model, &mut rng, thorough);
+
+  // ---------------------------------------------------------------- every operation on every representation of a value
+  cohort_family(&mut rep, &mut model, &mut rng, cfg, thorough);
 
   // ---------------------------------------------------------------- comparison
   let n_cmp = if thorough { 200_000 } else { 6_000 };
@@ -1733,6 +1736,410 @@ fn near_square_family(rep: &mut Report, model: &mut Model, rng: &mut Rng, cfg: &
   }
   rep.extra.insert("nearsquare_operands".into(), json!(ops.len()));
   rep.extra.insert("nearsquare_judged_separately".into(), json!(jinfo.len()));
+}
+
+const COHORT_SIGNATURE: &str = "the result depends on the representation of an operand (trailing zeros folded into the exponent or not, computed or written), not on its value only";
+
+/// Plain decimal text of a finite value without fraction zeros at the end: the written-out expectation of `string()`.
+fn cohort_plain(neg: bool, c: &str, e: i32) -> String {
+  let d = D::new(false, c, e);
+  let mut t = plain_literal(&d);
+  if t.contains('.') {
+    t = t.trim_end_matches('0').trim_end_matches('.').to_string();
+  }
+  if neg {
+    format!("-{}", t)
+  } else {
+    t
+  }
+}
+
+/// `cohort`: every operation observed on every *representation* of the same value. A decimal128 value `c * 10^e` has
+/// up to 34 members in its cohort (`c*10^j` at `e - j`); which one a FEEL number holds depends on where it came from:
+/// results of `+ - * /`, `floor`, `ceiling`, `sqrt`, `log`, `**` are reduced (trailing zeros folded into the exponent:
+/// ten is `1E+1`, 10010 is `1001E+1`), literals keep the digits as written (`10010`, `10.0`), `decimal(n, s)` yields
+/// the exponent `-s`, negation and `abs` keep what they get. Values: coefficients ending in 1, 01, 001, 0001, 2, 02,
+/// 002, 5 ... behind 0 .. 31 further digits (the low coefficient unit of the C library holds three digits), bare short
+/// coefficients, exponents 0, 1, 2, 3 ... up to the end of the range, negative exponents, zeros of both signs.
+/// Operand expressions per member: held as is (a variable), written as a literal, made by `decimal(r, -E)` from the
+/// reduced member, made by negating the held opposite; and for the value: computed as a sum, a difference, a product
+/// and a quotient of other numbers (variables and, for short numbers, literals). Operations: log exp sqrt floor
+/// ceiling abs - decimal ** (as base and as exponent) modulo (both places) / * + - even odd = < <= > != between
+/// in string, through FEEL; ln / exp / sqrt also through `FeelNumber` and `dec.rs` on every member.
+/// Judges: (i) the law that the answer is the same for all operand expressions of one value (numbers compared as
+/// values; `string()` by the digits up to fraction zeros at the end, which must be the written-out plain text of the
+/// value); (ii) every distinct answer of log / exp against the enclosure of the true value, of sqrt against
+/// `SqrtSpec`, of integer powers against the exact power; comparisons against the written-out truth value;
+/// (iii) floor ceiling abs - decimal / * + - modulo sqrt against the model of the glue (`feelnum`) on the member.
+fn cohort_family(rep: &mut Report, model: &mut Model, rng: &mut Rng, cfg: &Cfg, thorough: bool) {
+  let t_start = std::time::Instant::now();
+  const SUFFIXES: [&str; 18] = ["1", "01", "001", "0001", "00001", "2", "02", "002", "0002", "5", "05", "005", "3", "7", "9", "11", "101", "1001"];
+  const PREFIX_LENS: [usize; 10] = [0, 1, 2, 3, 4, 6, 9, 15, 24, 30];
+  // (name, template, needs w)
+  const OPS: [(&str, &str); 34] = [
+    ("log", "log({})"), ("exp", "exp({})"), ("sqrt", "sqrt({})"), ("floor", "floor({})"), ("ceiling", "ceiling({})"), ("abs", "abs({})"), ("neg", "-({})"),
+    ("decimal 0", "decimal({}, 0)"), ("decimal 2", "decimal({}, 2)"), ("decimal -1", "decimal({}, -1)"), ("power 2", "({}) ** 2"), ("power 3", "({}) ** 3"), ("power -1", "({}) ** -1"),
+    ("power 0.5", "({}) ** 0.5"), ("2 power", "2 ** ({})"), ("1.5 power", "1.5 ** ({})"), ("modulo 7", "modulo({}, 7)"), ("modulo 0.3", "modulo({}, 0.3)"), ("modulo by", "modulo(100003, {})"),
+    ("div 3", "({}) / 3"), ("reciprocal", "1 / ({})"), ("mul 3", "({}) * 3"), ("add 1", "({}) + 1"), ("sub 1", "({}) - 1"), ("even", "even({})"), ("odd", "odd({})"),
+    ("eq", "({}) = w"), ("lt", "({}) < w"), ("le", "({}) <= w"), ("gt", "({}) > w"), ("ne", "({}) != w"), ("between", "({}) between w and w"), ("in", "({}) in [w..w]"), ("string", "string({})"),
+  ];
+  let limit: u128 = 10u128.pow(34);
+  // ---- the values: (neg, coefficient without trailing zeros, exponent, always-ops only?)
+  let mut values: Vec<(bool, String, i32, bool)> = vec![];
+  // systematic: every suffix x exponents 0..4 x prefix lengths (log / exp / sqrt and a few others)
+  for suf in SUFFIXES {
+    for e in 0..=4 {
+      for pl in PREFIX_LENS {
+        if !thorough && !(pl == 0 || rng.chance(1, 3)) {
+          continue;
+        }
+        if pl + suf.len() > 34 {
+          continue;
+        }
+        let c = format!("{}{}", if pl == 0 { String::new() } else { digits(rng, pl) }, suf);
+        values.push((false, c, e, true));
+      }
+    }
+  }
+  let n_random = if thorough { 6_000 } else { 260 };
+  for i in 0..n_random {
+    let suf = SUFFIXES[i % SUFFIXES.len()];
+    let pl = if rng.chance(1, 3) { 0 } else { rng.below((35 - suf.len()) as u64) as usize };
+    let c = format!("{}{}", if pl == 0 { String::new() } else { digits(rng, pl) }, suf);
+    let len = c.trim_start_matches('0').len().max(1) as i32;
+    let e = match rng.below(8) {
+      0 => rng.range(0, 4) as i32,
+      1 => rng.range(5, 40) as i32,
+      2 => rng.range(41, (6111 - 34) as i64) as i32,
+      // the end of the range: the reduced member sits at or just below the largest exponent
+      3 => 6111 - rng.below(3) as i32,
+      4 => -(rng.range(1, 40) as i32),
+      5 => rng.range(-6176, -41) as i32,
+      6 => -len + rng.range(-2, 2) as i32,
+      _ => rng.range(0, 12) as i32,
+    };
+    values.push((rng.chance(1, 8), c, e, false));
+  }
+  for (neg, e) in [(false, 0), (true, 0), (false, 3), (false, -2)] {
+    values.push((neg, "0".to_string(), e, false));
+  }
+  // ---- observations per value
+  struct Obs {
+    value: usize,
+    op: &'static str,
+    text: String,
+    got: String,
+    member: Option<D>,
+  }
+  let mut obs: Vec<Obs> = vec![];
+  let show_vars = |vars: &[(&'static str, D)]| -> String { vars.iter().map(|(k, d)| format!("{}={}", k, d.to_sci_input())).collect::<Vec<_>>().join(" ") };
+  for (vi, (neg, c0, e, basic)) in values.iter().enumerate() {
+    let c = D::new(false, c0, 0).coeff;
+    let zero = c == "0";
+    let len = c.len();
+    let cv: u128 = c.parse().unwrap();
+    // members of the cohort: j zeros moved from the exponent into the coefficient
+    let mut js: Vec<usize> = vec![0, 1, 2, 3, 34 - len];
+    if *e > 0 {
+      js.extend([*e as usize, *e as usize + 1, *e as usize + 2]);
+    }
+    js.retain(|j| (zero || *j + len <= 34) && *e as i64 - *j as i64 >= -6176);
+    js.sort();
+    js.dedup();
+    if zero {
+      js = vec![0, 1, 5];
+    }
+    while js.len() > 5 {
+      let k = 2 + rng.below(js.len() as u64 - 2) as usize;
+      js.remove(k);
+    }
+    let members: Vec<D> = js.iter().map(|j| D::new(*neg, &format!("{}{}", c, if zero { String::new() } else { "0".repeat(*j) }), e - *j as i32)).collect();
+    // operand expressions: (text, variables, the member it holds when that is known)
+    let mut operands: Vec<(String, Vec<(&'static str, D)>, Option<D>)> = vec![];
+    let reduced = members[0].clone();
+    for m in &members {
+      operands.push(("a".into(), vec![("a", m.clone())], Some(m.clone())));
+      if m.exp <= 0 && m.exp >= -60 && !m.neg {
+        operands.push((plain_literal(m), vec![], Some(m.clone())));
+      }
+      if (-6111..=6176).contains(&(-m.exp)) {
+        operands.push((format!("decimal(r, {})", -m.exp), vec![("r", reduced.clone())], Some(m.clone())));
+      }
+      // (the opposite of a zero is +0 whatever its sign: not a way to make -0)
+      if !zero {
+        operands.push(("-(m)".into(), vec![("m", D::new(!m.neg, &m.coeff, m.exp))], Some(m.clone())));
+      }
+    }
+    if !zero {
+      let x = cv / 2;
+      let sum = (D::new(*neg, &x.to_string(), *e), D::new(*neg, &(cv - x).to_string(), *e));
+      operands.push(("(x + y)".into(), vec![("x", sum.0.clone()), ("y", sum.1.clone())], None));
+      if !*neg && (0..=6).contains(e) && len + *e as usize <= 30 {
+        operands.push((format!("({} + {})", plain_literal(&sum.0), plain_literal(&sum.1)), vec![], None));
+      }
+      if cv + 7 < limit {
+        operands.push(("(x - y)".into(), vec![("x", D::new(*neg, &(cv + 7).to_string(), *e)), ("y", D::new(*neg, "7", *e))], None));
+      }
+      if cv * 25 < limit && *e - 2 >= -6176 {
+        operands.push(("(x * y)".into(), vec![("x", D::new(*neg, &(cv * 25).to_string(), *e - 2)), ("y", D::new(false, "4", 0))], None));
+      } else {
+        operands.push(("(x * y)".into(), vec![("x", D::new(*neg, &c, 0)), ("y", D::new(false, "1", *e))], None));
+      }
+      if cv * 3 < limit {
+        operands.push(("(x / y)".into(), vec![("x", D::new(*neg, &(cv * 3).to_string(), *e)), ("y", D::new(false, "3", 0))], None));
+      }
+    }
+    // the other operand of the comparisons: one more member
+    let w = rng.pick(&members).clone();
+    // operations
+    let mut ops: Vec<usize> = vec![0, 2];
+    let magnitude = len as i32 + *e;
+    if magnitude <= 4 {
+      ops.push(1);
+    }
+    let extra = if *basic { 3 } else { 7 };
+    for _ in 0..extra {
+      ops.push(3 + rng.below(OPS.len() as u64 - 3) as usize);
+    }
+    ops.sort();
+    ops.dedup();
+    for oi in ops {
+      let (name, template) = OPS[oi];
+      // exponents of ** beyond a few digits cost time and are null anyway
+      if (name == "2 power" || name == "1.5 power") && magnitude > 6 {
+        continue;
+      }
+      for (otext, ovars, member) in &operands {
+        let text = template.replace("{}", otext);
+        let mut vars: Vec<(&'static str, D)> = ovars.clone();
+        if template.contains('w') {
+          vars.push(("w", w.clone()));
+        }
+        let bound: Vec<(&str, Value)> = vars.iter().filter_map(|(k, d)| number_of(d).map(|n| (*k, Value::Number(n)))).collect();
+        if bound.len() != vars.len() {
+          continue;
+        }
+        let shown = if vars.is_empty() { text.clone() } else { format!("{} with {}", text, show_vars(&vars)) };
+        let got = match guarded(|| feel_eval(&bound, &text)) {
+          Ok(Ok(Value::String(s))) => format!("text:{}", s),
+          Ok(Ok(v)) => value_show(&v),
+          Ok(Err(e)) => {
+            rep.disagree(Kind::ImplVsSpec, "cohort", &format!("FEEL {} fails to evaluate", name), &shown, &e, "a value");
+            continue;
+          }
+          Err(p) => {
+            rep.disagree(Kind::ImplVsSpec, "cohort", &format!("FEEL {} panics", name), &shown, &p, "a value");
+            continue;
+          }
+        };
+        obs.push(Obs { value: vi, op: name, text: shown, got, member: member.clone() });
+      }
+      // the same through FeelNumber and dec.rs, on every member
+      if matches!(name, "log" | "exp" | "sqrt") {
+        for m in &members {
+          let q = m.quad();
+          let raw = guarded(|| {
+            show_quad(&match name {
+              "log" => dec_ln(&q),
+              "exp" => dec_exp(&q),
+              _ => dec_square_root(&q),
+            })
+          });
+          // the FEEL built-ins answer null where the library answers NaN or an infinity (log of zero or of a negative
+          // number, sqrt of a negative number); exp is not checked (finding F7c)
+          let as_feel = |v: Option<DecV>| -> String {
+            match v {
+              Some(DecV::Fin(d)) => DecV::Fin(d).reduced().wire(),
+              Some(other) if name == "exp" => other.wire(),
+              _ => "null".to_string(),
+            }
+          };
+          match raw {
+            Ok(v) => obs.push(Obs { value: vi, op: name, text: format!("dec.rs {}({})", name, m.to_sci_input()), got: as_feel(v), member: Some(m.clone()) }),
+            Err(p) => rep.disagree(Kind::ImplVsSpec, "cohort", &format!("dec.rs {} panics", name), &m.to_sci_input(), &p, "a value"),
+          }
+          if let Some(x) = number_of(m) {
+            let f = guarded(|| match name {
+              "log" => x.ln().and_then(|n| observe(&n)),
+              "exp" => observe(&x.exp()),
+              _ => x.sqrt().and_then(|n| observe(&n)),
+            });
+            match f {
+              Ok(v) => {
+                // core.rs: log and sqrt of a number that is not positive / is negative are null before the library is asked
+                let got = if (name == "log" && (m.neg || zero)) || (name == "sqrt" && m.neg && !zero) { "null".to_string() } else { as_feel(v) };
+                obs.push(Obs { value: vi, op: name, text: format!("FeelNumber {}({})", name, m.to_sci_input()), got, member: Some(m.clone()) })
+              }
+              Err(p) => rep.disagree(Kind::ImplVsSpec, "cohort", &format!("FeelNumber {} panics", name), &m.to_sci_input(), &p, "a value"),
+            }
+          }
+        }
+      }
+    }
+  }
+  if std::env::var("VERIF_TIMING").is_ok() { eprintln!("cohort: observations {:?}", t_start.elapsed()); }
+  let t_obs = std::time::Instant::now();
+  // ---- judges
+  // canonical form of an answer for the law: numbers as reduced values (done by `value_show`), the text of `string()`
+  // without fraction zeros at the end
+  let canon = |got: &str| -> String {
+    match got.strip_prefix("text:") {
+      Some(t) if t.contains('.') => format!("text:{}", t.trim_end_matches('0').trim_end_matches('.')),
+      _ => got.to_string(),
+    }
+  };
+  let mut jreqs: Vec<String> = vec![];
+  let mut jfor: Vec<(usize, &'static str)> = vec![]; // (observation, signature)
+  let mut mreqs: Vec<String> = vec![];
+  let mut mfor: Vec<usize> = vec![];
+  let mut seen_judge: std::collections::HashSet<String> = std::collections::HashSet::new();
+  let mut start = 0usize;
+  while start < obs.len() {
+    let mut end = start;
+    while end < obs.len() && obs[end].value == obs[start].value && obs[end].op == obs[start].op {
+      end += 1;
+    }
+    let group = &obs[start..end];
+    let (neg, c0, e, _) = &values[group[0].value];
+    let c = D::new(false, c0, 0).coeff;
+    let zero = c == "0";
+    let reduced_wire = D::new(*neg, &c, *e).reduced().wire();
+    let op = group[0].op;
+    rep.case(&format!("cohort {} {}", op, reduced_wire), true);
+    rep.hit(&format!("cohort:{}", op));
+    rep.hit(&format!("cohort:operand expressions {}", if group.len() >= 16 { "16.." } else if group.len() >= 8 { "8..15" } else { "..7" }));
+    rep.hit(&format!("cohort:exponent {}", match *e { 0 => "0", 1 => "1", 2 => "2", 3 => "3", 4 => "4", 5..=40 => "5..40", 41..=6000 => "41..6000", x if x > 6000 => "6001..6111", -40..=-1 => "-40..-1", _ => "..-41" }));
+    // (i) the law
+    let first = canon(&group[0].got);
+    if let Some(other) = group.iter().find(|o| canon(&o.got) != first) {
+      rep.disagree(Kind::ImplVsSpec, "cohort", &format!("{}: {}", op, COHORT_SIGNATURE), &format!("{}  versus  {}", other.text, group[0].text), &other.got, &group[0].got);
+    }
+    // (ii) every distinct answer against what is written out / the specification
+    for (k, o) in group.iter().enumerate() {
+      let key = format!("{} {} {}", op, reduced_wire, o.got);
+      let m = o.member.clone().unwrap_or_else(|| D::new(*neg, &c, *e).reduced());
+      let positive = !*neg && !zero;
+      match op {
+        "eq" | "le" | "between" | "in" => {
+          if o.got != "true" {
+            rep.disagree(Kind::ImplVsSpec, "cmp", "numbers of equal value do not compare equal (or unequal ones do)", &o.text, &o.got, "true");
+          }
+        }
+        "lt" | "gt" | "ne" => {
+          if o.got != "false" {
+            rep.disagree(Kind::ImplVsSpec, "cmp", "numbers of equal value do not compare equal (or unequal ones do)", &o.text, &o.got, "false");
+          }
+        }
+        "string" => {
+          let want = format!("text:{}", cohort_plain(*neg && !zero, &c, *e));
+          let got = canon(&o.got);
+          let got = if zero { got.replace("text:-0", "text:0") } else { got };
+          if got != want {
+            rep.disagree(Kind::ImplVsSpec, "cohort", "string() of a number is not the plain decimal text of its value", &o.text, &o.got, &want);
+          }
+        }
+        "log" => {
+          if !positive {
+            if o.got != "null" {
+              rep.disagree(Kind::ImplVsSpec, "log", "log of zero or of a negative number is not null", &o.text, &o.got, "null");
+            }
+          } else if o.got == "null" {
+            rep.disagree(Kind::ImplVsSpec, "log", "log() of a number inside its domain is null", &o.text, &o.got, "a number within two units in the last place of the true value");
+          } else if o.got.starts_with("(n ") && seen_judge.insert(key) {
+            jreqs.push(format!("(c02 judgeln {} {})", m.wire(), o.got));
+            jfor.push((start + k, "log() differs from the true value by more than two units in the last place"));
+          }
+        }
+        "exp" => {
+          if o.got.starts_with("(n ") && seen_judge.insert(key) {
+            jreqs.push(format!("(c02 judgeexp {} {})", m.wire(), o.got));
+            jfor.push((start + k, "exp() differs from the true value by more than two units in the last place"));
+          }
+        }
+        "sqrt" => {
+          // (the root of a zero is judged by `feelglue`: the observation is reduced, the specification names the exponent)
+          if o.got.starts_with("(n ") && !zero && seen_judge.insert(format!("{} {}", key, m.wire())) {
+            jreqs.push(format!("(c02 judgev sqrt {} {})", m.wire(), o.got));
+            jfor.push((start + k, "sqrt does not return the specified (correctly rounded) result"));
+          }
+        }
+        "power 2" | "power 3" | "power -1" => {
+          if o.got.starts_with("(n ") && !zero && seen_judge.insert(key) {
+            let n = match op { "power 2" => 2, "power 3" => 3, _ => -1 };
+            jreqs.push(format!("(c02 judgepow {} {} {})", m.wire(), n, o.got));
+            jfor.push((start + k, "an integer power differs from the exact power by more than two units in the last place"));
+          }
+        }
+        _ => {}
+      }
+      // (iii) the model of the glue on the member
+      if let Some(mb) = &o.member {
+        if o.text.starts_with("dec.rs") || o.text.starts_with("FeelNumber") {
+          continue;
+        }
+        let req = match op {
+          "floor" | "ceiling" | "abs" | "neg" | "sqrt" => Some(format!("(c02 feelnum {} {})", op, mb.wire())),
+          "decimal 0" => Some(format!("(c02 feelnum decimal {} (n false 0 0))", mb.wire())),
+          "decimal 2" => Some(format!("(c02 feelnum decimal {} (n false 2 0))", mb.wire())),
+          "decimal -1" => Some(format!("(c02 feelnum decimal {} (n true 1 0))", mb.wire())),
+          "div 3" => Some(format!("(c02 feelnum div {} (n false 3 0))", mb.wire())),
+          "mul 3" => Some(format!("(c02 feelnum mul {} (n false 3 0))", mb.wire())),
+          "add 1" => Some(format!("(c02 feelnum add {} (n false 1 0))", mb.wire())),
+          "sub 1" => Some(format!("(c02 feelnum sub {} (n false 1 0))", mb.wire())),
+          "modulo 7" => Some(format!("(c02 feelnum modulo {} (n false 7 0))", mb.wire())),
+          "modulo 0.3" => Some(format!("(c02 feelnum modulo {} (n false 3 -1))", mb.wire())),
+          "modulo by" => Some(format!("(c02 feelnum modulo (n false 100003 0) {})", mb.wire())),
+          "reciprocal" => Some(format!("(c02 feelnum div (n false 1 0) {})", mb.wire())),
+          _ => None,
+        };
+        if let Some(r) = req {
+          if seen_judge.insert(format!("{} {}", r, o.got)) {
+            mreqs.push(r);
+            mfor.push(start + k);
+          }
+        }
+      }
+    }
+    start = end;
+  }
+  let t_j = std::time::Instant::now();
+  let (janswers, n_req) = ask_parallel(&cfg.driver, &jreqs);
+  model.requests += n_req;
+  if std::env::var("VERIF_TIMING").is_ok() { eprintln!("cohort: judge {} reqs {:?}", jreqs.len(), t_j.elapsed()); }
+  for (((oi, sig), req), ans) in jfor.iter().zip(jreqs.iter()).zip(janswers.iter()) {
+    let o = &obs[*oi];
+    if ans.contains("false") {
+      let fam = if sig.starts_with("log") { "log" } else if sig.starts_with("exp") { "exp" } else if sig.starts_with("sqrt") { "sqrt" } else { "pow" };
+      rep.disagree(Kind::ImplVsSpec, fam, sig, &o.text, &o.got, "the specified value");
+    } else if ans.contains("true") {
+      rep.hit("cohort:judged-ok");
+    } else if ans.contains("na") {
+      rep.hit("cohort:not-judged");
+    } else {
+      rep.disagree(Kind::ImplVsModel, "cohort", "driver-error", req, "", ans);
+    }
+  }
+  let t_m = std::time::Instant::now();
+  let manswers = model.ask_batch(&mreqs);
+  if std::env::var("VERIF_TIMING").is_ok() { eprintln!("cohort: model {} reqs {:?}; since obs {:?}", mreqs.len(), t_m.elapsed(), t_obs.elapsed()); }
+  for ((oi, req), ans) in mfor.iter().zip(mreqs.iter()).zip(manswers.iter()) {
+    let o = &obs[*oi];
+    let m = Sexp::parse(ans).and_then(|s| s.as_list().and_then(|l| l.get(1).cloned()));
+    let m_shown = match &m {
+      Some(x) => match DecV::from_sexp(x) {
+        Some(v) => v.reduced().wire(),
+        None => x.to_string(),
+      },
+      None => ans.clone(),
+    };
+    rep.hit("cohort:model-compared");
+    if o.got != m_shown {
+      rep.disagree(Kind::ImplVsModel, "cohort", &format!("FEEL {} on a cohort member differs from the model FeelNum", o.op), &format!("{} [{}]", o.text, req), &o.got, &m_shown);
+    }
+  }
+  rep.extra.insert("cohort_values".into(), json!(values.len()));
+  rep.extra.insert("cohort_observations".into(), json!(obs.len()));
+  rep.extra.insert("cohort_judged".into(), json!(jreqs.len()));
 }
 
 /// A case of the main run whose sequential answer is settled (equal to the model's, which its specification accepts).
